@@ -740,12 +740,15 @@ def c09(tier):
     ns = [1, 2, 3, 4, 5, 7, 9, 12, 16, 64] if tier == "quick" else list(range(1, 13)) + [16, 32, 64]
     lag = [{"k": "LaguerreFilter", "g": g} for g in ([0, 1], [1, 2], [9, 10])]
     progs = []; meta = []
-    def add(cfg, kind, xa, xb=None):
+    def add(cfg, kind, xa, xb=None, unit=10, maxabs=1000, tailabs=None):
         pr = [["new", 0, cfg], ["uss", 0, xa, k]]
         if xb is not None:
             pr += [["new", 1, cfg], ["uss", 1, xb, k]]
-        progs.append({"id": len(progs) + 1, "unit": 10, "slots": 2, "prog": pr})
-        meta.append({"cfg": cfg, "kind": kind, "unit": 10, "maxabs": 1000, "len": len(xa)})
+        progs.append({"id": len(progs) + 1, "unit": unit, "slots": 2, "prog": pr})
+        m = {"cfg": cfg, "kind": kind, "unit": unit, "maxabs": maxabs, "len": len(xa)}
+        if tailabs is not None:
+            m["tailabs"] = tailabs
+        meta.append(m)
     H = 4000
     for cfg in [c for nn in ns for c in c09_views(nn)] + lag:
         add(cfg, "bounded", [1000 if i % 2 else -1000 for i in range(n)])                       # Nyquist
@@ -757,7 +760,11 @@ def c09(tier):
         # a loud past followed by a quiet common tail: anything that remembers an extreme of the past (a running maximum
         # used for normalisation, a peak that never decays) keeps the two runs apart
         quiet = [rnd.randint(-60, 60) for _ in range(H)]
-        add(cfg, "pair", [rnd.choice([-1000, 1000, 0, 500]) for _ in range(1500)] + quiet, [rnd.randint(-5, 5) for _ in range(1500)] + quiet)
+        add(cfg, "pair", [rnd.choice([-1000, 1000, 0, 500]) for _ in range(1500)] + quiet, [rnd.randint(-5, 5) for _ in range(1500)] + quiet, tailabs=60)
+        # ... nine decades louder than the tail: rounding residue of the past must not stay in the answers either
+        tail3 = [rnd.randint(-5000, 5000) for _ in range(H)]
+        add(cfg, "pair", [rnd.choice([-2000000000, 2000000000, 1500000000]) for _ in range(300)] + tail3, [rnd.randint(-3000, 3000) for _ in range(300)] + tail3,
+            unit=1000, maxabs=2000000000, tailabs=5000)
     out = record(run, "streams", progs)
     lines = []
     for m, r in zip(meta, out):
